@@ -72,8 +72,11 @@ type BundlePart struct {
 func (bp BundlePart) storeBundle(b bpv7.Bundle) error {
 	if f, err := os.OpenFile(bp.Filename, os.O_WRONLY|os.O_CREATE, 0600); err != nil {
 		return err
+	} else if err := b.WriteBundle(f); err != nil {
+		_ = f.Close()
+		return err
 	} else {
-		return b.WriteBundle(f)
+		return f.Close()
 	}
 }
 
@@ -88,6 +91,7 @@ func (bp BundlePart) Load() (b bpv7.Bundle, err error) {
 		err = fErr
 	} else {
 		b, err = bpv7.ParseBundle(f)
+		_ = f.Close()
 	}
 	return
 }
